@@ -420,6 +420,13 @@ func prelude(t *testing.T) {
 			run(t, &Case{Data: spec, Mode: "commit-points", Writer: w})
 		}
 	}
+	// more than 1 MiB of bitmap data (about 75,000 distinct values): writers
+	// that bound their transactions by size commit several times here
+	for _, w := range []int{fix.WBig, fix.WMemFile} {
+		spec := gen.DataSpec{Recipe: &gen.Recipe{N: 75000, Cols: []gen.ColSpec{
+			{Name: "u", Prefix: "row-number-", Kind: gen.KUnique}, {Name: "a", Kind: gen.KMod, K: 7, Prefix: "v"}}}}
+		run(t, &Case{Data: spec, Mode: "commit-points", Writer: w})
+	}
 	for _, n := range []int{0, 1, 1001, 2500} {
 		for w := 0; w < fix.NWriters; w++ {
 			spec := gen.DataSpec{Recipe: &gen.Recipe{N: n, Cols: []gen.ColSpec{
@@ -449,9 +456,15 @@ func TestQuick(t *testing.T) {
 		run(rt, &Case{Data: drawData(rt, 3100), Mode: "kill-at-size", Big: rapid.Bool().Draw(rt, "big"), Frac: rapid.IntRange(0, 999).Draw(rt, "frac")})
 	})
 	fix.Check(t, "kill-at-size-big", 8, func(rt *rapid.T) {
-		spec := gen.DataSpec{Recipe: &gen.Recipe{N: rapid.SampledFrom([]int{40000, 90000}).Draw(rt, "bign"), Cols: []gen.ColSpec{
+		spec := gen.DataSpec{Recipe: &gen.Recipe{N: 40000, Cols: []gen.ColSpec{
 			{Name: "u", Prefix: "row-number-", Kind: gen.KUnique}, {Name: "a", Kind: gen.KMod, K: 7, Prefix: "v"}}}}
 		run(rt, &Case{Data: spec, Mode: "kill-at-size", Big: rapid.Bool().Draw(rt, "big"), Frac: rapid.IntRange(0, 999).Draw(rt, "frac")})
+	})
+	// --big mode with enough distinct values that the bitmaps alone exceed 1 MiB
+	fix.Check(t, "kill-at-size-bigmode", 5, func(rt *rapid.T) {
+		spec := gen.DataSpec{Recipe: &gen.Recipe{N: 90000, Cols: []gen.ColSpec{
+			{Name: "u", Prefix: "row-number-", Kind: gen.KUnique}, {Name: "a", Kind: gen.KMod, K: 7, Prefix: "v"}}}}
+		run(rt, &Case{Data: spec, Mode: "kill-at-size", Big: true, Frac: rapid.IntRange(20, 980).Draw(rt, "frac")})
 	})
 	fix.Check(t, "kill-delay", 15, func(rt *rapid.T) {
 		run(rt, &Case{Data: drawData(rt, 3100), Mode: "kill-delay", Big: rapid.Bool().Draw(rt, "big"), Frac: rapid.IntRange(0, 1100).Draw(rt, "frac")})
@@ -481,6 +494,11 @@ func TestThorough(t *testing.T) {
 		spec := gen.DataSpec{Recipe: &gen.Recipe{N: rapid.SampledFrom([]int{40000, 90000, 150000}).Draw(rt, "bign"), Cols: []gen.ColSpec{
 			{Name: "u", Prefix: "row-number-", Kind: gen.KUnique}, {Name: "a", Kind: gen.KMod, K: 7, Prefix: "v"}}}}
 		run(rt, &Case{Data: spec, Mode: "kill-at-size", Big: rapid.Bool().Draw(rt, "big"), Frac: rapid.IntRange(0, 999).Draw(rt, "frac")})
+	})
+	fix.Check(t, "kill-at-size-bigmode", 25, func(rt *rapid.T) {
+		spec := gen.DataSpec{Recipe: &gen.Recipe{N: rapid.SampledFrom([]int{90000, 150000}).Draw(rt, "n"), Cols: []gen.ColSpec{
+			{Name: "u", Prefix: "row-number-", Kind: gen.KUnique}, {Name: "a", Kind: gen.KMod, K: 7, Prefix: "v"}}}}
+		run(rt, &Case{Data: spec, Mode: "kill-at-size", Big: true, Frac: rapid.IntRange(20, 980).Draw(rt, "frac")})
 	})
 	fix.Check(t, "kill-delay", 120, func(rt *rapid.T) {
 		run(rt, &Case{Data: drawData(rt, 3100), Mode: "kill-delay", Big: rapid.Bool().Draw(rt, "big"), Frac: rapid.IntRange(0, 1100).Draw(rt, "frac")})
